@@ -137,6 +137,32 @@ def _leaves(stmts) -> bool:
     return False
 
 
+def _bool_flag(s: ast.If):
+    """if c: x = True else: x = False   ->   x = c   (c boolean valued; otherwise bool(c)); the mirrored form gives x = not c"""
+    if len(s.body) == 1 and len(s.orelse) == 1 and isinstance(s.body[0], ast.Assign) and isinstance(s.orelse[0], ast.Assign):
+        a, b = s.body[0], s.orelse[0]
+        if len(a.targets) == 1 and len(b.targets) == 1 and isinstance(a.targets[0], ast.Name) and isinstance(b.targets[0], ast.Name) \
+                and a.targets[0].id == b.targets[0].id and isinstance(a.value, ast.Constant) and isinstance(b.value, ast.Constant) \
+                and isinstance(a.value.value, bool) and isinstance(b.value.value, bool) and a.value.value != b.value.value:
+            c = s.test if a.value.value else _neg(s.test)
+            if not _is_boolish(c):
+                c = ast.Call(func=ast.Name(id="bool", ctx=ast.Load()), args=[c], keywords=[])
+            new = ast.Assign(targets=[ast.Name(id=a.targets[0].id, ctx=ast.Store())], value=c)
+            return ast.fix_missing_locations(ast.copy_location(new, s))
+    return None
+
+
+def _unbool(e):
+    """bool(E) -> E for boolean valued E"""
+    class T(ast.NodeTransformer):
+        def visit_Call(self, n):
+            self.generic_visit(n)
+            if call_name(n) == "bool" and len(n.args) == 1 and not n.keywords and _is_boolish(n.args[0]):
+                return n.args[0]
+            return n
+    return T().visit(e)
+
+
 def _norm_block(stmts: List[ast.stmt]) -> List[ast.stmt]:
     out: List[ast.stmt] = []
     i = 0
@@ -153,7 +179,8 @@ def _norm_block(stmts: List[ast.stmt]) -> List[ast.stmt]:
                 stmts = stmts[:i + 1]
             if s.orelse and isinstance(s.test, ast.UnaryOp) and isinstance(s.test.op, ast.Not):
                 s.test, s.body, s.orelse = s.test.operand, s.orelse, s.body
-            out.append(s)
+            flag = _bool_flag(s)
+            out.append(flag if flag is not None else s)
         elif isinstance(s, (ast.For, ast.While)):
             if isinstance(s, ast.While):
                 s.test = nnf(s.test)
@@ -175,6 +202,10 @@ def _norm_block(stmts: List[ast.stmt]) -> List[ast.stmt]:
                 v = getattr(s, f, None)
                 if isinstance(v, ast.IfExp):
                     v.test = nnf(v.test)
+            if isinstance(s, ast.Assign):
+                s.value = _unbool(s.value)
+                if _is_boolish(s.value):
+                    s.value = nnf(s.value)
             out.append(s)
         i += 1
     return _accumulate_loops(out)
